@@ -566,15 +566,22 @@ UriBool URI_FUNC(FixAmbiguity)(URI_TYPE(Uri) * uri,
 		UriMemoryManager * memory) {
 	URI_TYPE(PathSegment) * segment;
 
-	if (	/* Case 1: absolute path, empty first segment */
+	/* A path below an authority cannot be mistaken for one */
+	if (URI_FUNC(IsHostSet)(uri)) {
+		return URI_TRUE;
+	}
+
+	if (	/* Case 1: absolute path, empty first segment, more segments: "//..." */
 			(uri->absolutePath
 			&& (uri->pathHead != NULL)
+			&& (uri->pathHead->next != NULL)
 			&& (uri->pathHead->text.afterLast == uri->pathHead->text.first))
 
-			/* Case 2: relative path, empty first and second segment */
+			/* Case 2: relative path, empty first and second segment, more segments: "//..." */
 			|| (!uri->absolutePath
 			&& (uri->pathHead != NULL)
 			&& (uri->pathHead->next != NULL)
+			&& (uri->pathHead->next->next != NULL)
 			&& (uri->pathHead->text.afterLast == uri->pathHead->text.first)
 			&& (uri->pathHead->next->text.afterLast == uri->pathHead->next->text.first))) {
 		/* NOOP */
